@@ -41,8 +41,14 @@ def gen_cases(rng, spec, n):
             c = kgen.gen_intr(rng, i)
         elif base == 'chain':
             c = kgen.gen_chain(rng, i)
+        elif base == 'decided':
+            c = kgen.gen_decided(rng, i)
+        elif base == 'ack':
+            c = kgen.gen_ack(rng, i)
         elif base == 'untilfail':
             c = kgen.gen_until_fail(rng, i)        # already a split plan
+        elif base == 'untilreact':
+            c = kgen.gen_until_react(rng, i)      # already a split plan
         elif base == 'store':
             c = kgen.gen_store(rng, i, malformed=malformed)
         else:
@@ -92,6 +98,11 @@ def _run_cases(cases, oracles, nontrivial):
                 if ins[0] in ('raise', 'fail') and 'Cancelled' in ins:
                     hist['shape:exception not derived from Exception'] += 1
         hist['kind:' + getattr(c, 'kind', 'corpus')] += 1
+        for n_ in runners[c.cid].notes:
+            if n_[0] == 'cond-form':
+                hist[f'shape:condition operands as {n_[1]}' + (' (empty)' if n_[2] == 0 else '')] += 1
+            elif n_[0] == 'evicted':
+                hist['shape:eviction decided during ' + ('a kernel step' if n_[6][0] == 'step' else f'a {n_[6][0]} call')] += 1
         txt = c.text().split('\n', 1)[1]
         nt = bool((nontrivial or default_nontrivial)(c, a))
         distinct[txt] = distinct.get(txt, False) or nt
